@@ -62,6 +62,10 @@ def impl(op, a):
     return _val(guarded(f))
 
 
+_impl_plain = impl
+impl = lib.with_bytearray_variant(_impl_plain, ['whdr_from_bytes', 'wpdu_from_bytes'])
+
+
 def splits(total, r, ctx):
     """schedules (lists of read sizes) for a stream of `total` bytes"""
     out = [[], [total + 8]] + ([[1] * (total + 2)] if total <= 1100 else [[1] * 30 + [997] * (total // 997 + 2)])
